@@ -44,6 +44,9 @@ STRUCTURED_VALUES = [
 def make_value(rnd, length=None):
     if length is None and rnd.random() < 0.06:
         return rnd.choice(STRUCTURED_VALUES)
+    if length is None and rnd.random() < 0.08:
+        # fixed-size RECORDS: the same head and tail, one field in the middle that differs
+        return b"H" * 32 + bytes([rnd.choice(b"abcdef")]) * rnd.choice([1, 16]) + b"T" * 40
     if length is None:
         length = rnd.choice(HUGE_VALUE_LENGTHS) if rnd.random() < 0.002 else rnd.choice(VALUE_LENGTHS)
     if length == 1:
